@@ -207,7 +207,9 @@ def run(ctx, anchors=None):
                 return ps[0], ps[2]
         return None
     # ---- step-wise side: constructor, then Iterate on the constructed object with symbolic k, i, path length
-    c_outs = [o for o in explore(ctor, this=this, params=pbind(ctor, [CONTROL, PROGRAM, SCRIPT, TLH])) if o.status in ("end", "ret")]
+    if len(ctor.params) not in (3, 4):
+        raise AnalysisBroken("R05.1: TaprootCommitmentEnv(control, program, script[, leaf-hash sink]) takes %d parameters" % len(ctor.params))
+    c_outs = [o for o in explore(ctor, this=this, params=pbind(ctor, [CONTROL, PROGRAM, SCRIPT, TLH][:len(ctor.params)])) if o.status in ("end", "ret")]
     if not c_outs:
         raise AnalysisBroken("R05.1: the TaprootCommitmentEnv constructor has no completing path")
     step = {}
@@ -217,7 +219,7 @@ def run(ctx, anchors=None):
     if any(len(v) != 1 for v in step.values()):
         raise AnalysisBroken("R05.1: the constructor leaves %s path-dependent" % [k for k, v in step.items() if len(v) != 1])
     step = {k: list(v)[0] for k, v in step.items()}
-    if step["m_control"] != CONTROL or step["m_program"] != PROGRAM or step["m_script"] != SCRIPT or step["m_tapleaf_hash"] != TLH:
+    if step["m_control"] != CONTROL or step["m_program"] != PROGRAM or step["m_script"] != SCRIPT or (len(ctor.params) == 4 and step["m_tapleaf_hash"] != TLH):
         raise AnalysisBroken("R05.1: the constructor does not store its arguments in m_control / m_program / m_script / m_tapleaf_hash")
     heap = {(this, "m_k"): K, (this, "m_i"): I_, (this, "m_path_len"): ("a", "n"), (this, "m_control"): CONTROL, (this, "m_p"): ("a", "p"), (this, "m_q"): ("a", "q")}
     i_outs = [o for o in explore(it, this=this, heap=heap) if o.status == "ret"]
@@ -284,15 +286,22 @@ def run(ctx, anchors=None):
     calls = [(f, n) for f in fb.funcs.values() for n in f.nodes() if n["k"] == "call" and n.get("cid") == leaf_twin.id and len(n["args"]) == 2]
     if not calls:
         raise AnalysisBroken("R05.1: no call of ComputeTapleafHash found")
-    cf_, cn_ = calls[0]
-    try:
-        a0 = X.eval_expr(cf_, cn_["args"][0])
-    except symx.Unsupported as e:
-        raise AnalysisBroken("R05.1: leaf version argument: %s" % e)
-    atoms = {x for x in symx.subterms(a0) if isinstance(x, tuple) and x and x[0] == "a"}
-    if len(atoms) != 1:
-        raise AnalysisBroken("R05.1: the leaf version passed to ComputeTapleafHash is %s" % symx.show(a0))
-    a0 = c02sub(a0, list(atoms)[0], CONTROL)
+    a0 = None
+    for (cf_, cn_) in calls:
+        try:
+            ax = X.eval_expr(cf_, cn_["args"][0])
+        except symx.Unsupported as e:
+            raise AnalysisBroken("R05.1: leaf version argument: %s" % e)
+        masked = isinstance(ax, tuple) and ax[0] == "ap" and ax[1] == "&" and len(ax) == 4 and ax[3] == C(0xfe) and isinstance(ax[2], tuple) and ax[2][:2] == ("ap", "[]") and ax[2][3] == C(0)
+        ctx.site()
+        ctx.inst(masked, "R05.1", "leaf-version-masked@" + cf_.name, cf_.loc(cn_), "%s passes control[0] & TAPROOT_LEAF_MASK as leaf version" % cf_.name,
+                 "%s computes a leaf hash with leaf version `%s`: BIP341 uses control[0] & 0xfe - with an odd output key the parity bit leaks into the leaf hash" % (cf_.name, symx.show(ax)))
+        if masked and a0 is None:
+            atoms = {x for x in symx.subterms(ax) if isinstance(x, tuple) and x and x[0] == "a"}
+            if len(atoms) == 1:
+                a0 = c02sub(ax, list(atoms)[0], CONTROL)
+    if a0 is None:
+        a0 = ("ap", "&", ("ap", "[]", CONTROL, C(0)), C(0xfe))
     l_outs = [o for o in explore(leaf_twin, params=pbind(leaf_twin, [a0, SCRIPT])) if o.status == "ret"]
     twin_leaf = {nslice(o.ret) for o in l_outs}
     want_leaf = ("ap", "m:GetSHA256", symx.stream(("a", "HASHER_TAPLEAF"), (("ap", "&", ("ap", "[]", CONTROL, C(0)), C(0xfe)), "unsigned char"), (SCRIPT, "CScript")))
@@ -374,12 +383,25 @@ def run(ctx, anchors=None):
              "the commitment environment is constructed only after the control-size check")
     # ---- R05.3
     stepper = fb.fn("StepScript", file="debugger/interpreter.cpp")
-    exports = [n for n in ctor.nodes() if n["k"] == "opcall" and n["op"] == "=" and astq.estr(n["args"][0]).replace("this->", "") in ("*m_tapleaf_hash",)]
-    leaf_asg = [n for n in ctor.nodes() if n["k"] == "opcall" and n["op"] == "=" and norm(astq.estr(n["args"][0])) == "k"]
-    ccf = ctor.cfg()
-    ok_exp = len(exports) == 1 and len(leaf_asg) == 1 and norm(astq.estr(exports[0]["args"][1])) == "k" and ccf.dominates(leaf_asg[0], exports[0])
+    # the hash handed on for signing is the leaf hash as computed at construction: through the sink pointer, or kept by value
+    ok_exp = True
+    nexp = 0
+    for o in c_outs:
+        if len(ctor.params) == 4:
+            sink = None
+            for (t_, v_) in o.conds:
+                if t_ == TLH:
+                    sink = v_
+            if sink is False:
+                continue
+            got = o.heap.get((TLH, "*"))
+        else:
+            got = o.field(this, "m_tapleaf_hash")
+        nexp += 1
+        if nslice(got) != step["m_k"]:
+            ok_exp = False
     ctx.site()
-    ctx.inst(ok_exp, "R05.3", "leaf-hash-exported-at-construction", ctor.loc(exports[0]) if exports else ctor.loc(),
+    ctx.inst(ok_exp and nexp > 0, "R05.3", "leaf-hash-exported-at-construction", ctor.loc(),
              "the constructor exports k through m_tapleaf_hash right after computing the leaf hash (before any branch is folded)")
     sw = [s_ for s_ in S.find_switches(stepper) if "Iterate" in astq.estr(s_["cond"])]
     done_ok = failed_ok = False
@@ -391,7 +413,7 @@ def run(ctx, anchors=None):
                 for n in g.nodes():
                     if n["k"] == "opcall" and n["op"] == "=" and astq.estr(n["args"][0]).endswith("execdata.m_tapleaf_hash"):
                         src = astq.estr(n["args"][1])
-                        done_ok = src.replace(" ", "") in ("*env.tce->m_tapleaf_hash",)
+                        done_ok = src.replace(" ", "").lstrip("*") in ("env.tce->m_tapleaf_hash",)
             if "Failed" in names:
                 rets_ = [n for n in g.nodes() if n["k"] == "return"]
                 failed_ok = len(rets_) == 1 and astq.const_value(rets_[0].get("e")) == 0 and not any(n["k"] == "un" and n["op"] == "++" for n in g.nodes())
